@@ -120,7 +120,7 @@ PROPS.update({
                 bounds={"shapes": SHAPES_NOTE, "outside": "longer histories, more keys, longer keys/values, entries larger than the write buffer, real DashMap/LRU/mmap implementations, real bincode layout"},
                 assumptions=STORE_ASSUME),
     "C02": dict(crate="store", title="Closing and reopening a store preserves exactly its contents, deletions included",
-                harnesses=[H("c01_shape_1", timeout=1500, rules=STORE_RULES, covers=["three rollovers"]), H("c01_shape_9", timeout=1500, rules=STORE_RULES),
+                harnesses=[H("c01_shape_1", timeout=1500, rules=STORE_RULES, covers=["three rollovers"]), H("c01_shape_9", timeout=1500, rules=STORE_RULES), H("c01_shape_4", timeout=1500, rules=STORE_RULES),
                            H("c01_shape_2", tier="thorough", timeout=1500, rules=STORE_RULES, mem_gb=28),
                            H("c01_shape_3", timeout=1500, rules=STORE_RULES), H("c01_shape_5", tier="thorough", timeout=1500, rules=STORE_RULES), H("c12_shape_4", tier="thorough", timeout=1500, rules=STORE_RULES)],
                 bounds={"shapes": SHAPES_NOTE + "; every shape ends with a reopen through the real rebuild_storage (scan path and hint path) and re-reads both keys", "outside": "two-digit file ids and foreign directory entries (name parsing is executed on single-digit ids only)"},
@@ -161,15 +161,15 @@ PROPS.update({
                 assumptions=STORE_ASSUME),
     "C20": dict(crate="store", title="A failed disk operation is reported and leaves the store consistent",
                 harnesses=[H("c20_m0_k00", timeout=900, rules=STORE_RULES), H("c20_m0_k01", timeout=900, rules=STORE_RULES), H("c20_m0w_k00", timeout=900, rules=STORE_RULES),
-                           H("c20_m5_k01", timeout=1200, rules=STORE_RULES), H("c20_m5_k00", tier="thorough", timeout=1200, rules=STORE_RULES), H("c20_m5w_k00", tier="thorough", timeout=1200, rules=STORE_RULES)]
-                + [H("c20_m3_k%02d" % k, tier="thorough", timeout=1800, mem_gb=20, rules=STORE_RULES) for k in range(0, 10)]
-                + [H("c20_m4_k%02d" % k, tier="thorough", timeout=1800, mem_gb=20, rules=STORE_RULES) for k in range(0, 10)]
+                           H("c20_m5_k01", timeout=1200, rules=STORE_RULES), H("c20_m4_k09", timeout=1500, mem_gb=20, rules=STORE_RULES), H("c20_m3_k09", timeout=1500, mem_gb=20, rules=STORE_RULES), H("c20_m3_k02", timeout=1500, mem_gb=20, rules=STORE_RULES), H("c20_m5_k00", tier="thorough", timeout=1200, rules=STORE_RULES), H("c20_m5w_k00", tier="thorough", timeout=1200, rules=STORE_RULES)]
+                + [H("c20_m3_k%02d" % k, tier="thorough", timeout=1800, mem_gb=20, rules=STORE_RULES) for k in range(0, 10) if k not in (2, 9)]
+                + [H("c20_m4_k%02d" % k, tier="thorough", timeout=1800, mem_gb=20, rules=STORE_RULES) for k in range(0, 10) if k != 9]
                 + [H("c20_m1_k%02d" % k, tier="thorough", timeout=2400, mem_gb=24, rules=STORE_RULES, covers=["the fault was injected"]) for k in range(0, 4)]
                 + [H("c20_m1w_k%02d" % k, tier="thorough", timeout=2400, mem_gb=24, rules=STORE_RULES, covers=["the fault was injected"]) for k in (0, 2)]
                 + [H("c20_m2_k%02d" % k, tier="thorough", timeout=2400, mem_gb=24, rules=STORE_RULES) for k in range(0, 16)]
                 + [H("c20_a_k%02d" % k, tier="thorough", timeout=3600, mem_gb=28, rules=STORE_RULES) for k in range(0, 8)]
                 + [H("c20_b_k%02d" % k, tier="thorough", timeout=3600, mem_gb=28, rules=STORE_RULES) for k in range(0, 18)],
-                bounds={"shapes": "M0 (quick): empty directory, rollover on every write; put a with the fault at its write / at the creation of the next file / as a short write, then a fault-free put b read back in-process. M1: put a, put b with reads after each and a restart. M2: two values on disk; merge of everything, put b, restart. A: rollover on every write; put a, put b, del a, put a. B: values on disk; del a, merge of everything, put b (A, B: thorough only - an injected error travels through niche-encoded Results in the real code whose discriminant CBMC does not fold, so every later step is explored twice; 25+ min and > 14 GB per instance). One harness instance per CONCRETE failing call k (counted after the open: create, write, fsync, unlink, stat, open, mmap, read - whatever the k-th call is) and failure mode (error without effect; for writes also: short write of 3 bytes, then an error); SYMBOLIC: every value byte. Followed by a restart", "outside": "faults during the initial recovery; more than one fault; entries larger than the write buffer"},
+                bounds={"shapes": "M3: a value on disk; merge of everything with the fault at file-system call k of the merge (k = 0..9: stat, creation of the merge data / hint file, open and mmap of the source, write of the data / hint entry, removal of the source hint / data file, creation of the next active file), then a fault-free put of the same key read back in-process and after a restart. M4: the same with the active file among the merged files. M5: put a failing at its write / at the creation of the next file / as a short write, then an acknowledged delete of a, restart (the key must stay deleted). After every restart: no file of either kind carries an id >= the id the restarted store writes into. M0 (quick): empty directory, rollover on every write; put a with the fault at its write / at the creation of the next file / as a short write, then a fault-free put b read back in-process. M1: put a, put b with reads after each and a restart. M2: two values on disk; merge of everything, put b, restart. A: rollover on every write; put a, put b, del a, put a. B: values on disk; del a, merge of everything, put b (A, B: thorough only - an injected error travels through niche-encoded Results in the real code whose discriminant CBMC does not fold, so every later step is explored twice; 25+ min and > 14 GB per instance). One harness instance per CONCRETE failing call k (counted after the open: create, write, fsync, unlink, stat, open, mmap, read - whatever the k-th call is) and failure mode (error without effect; for writes also: short write of 3 bytes, then an error); SYMBOLIC: every value byte. Followed by a restart", "outside": "faults during the initial recovery; more than one fault; entries larger than the write buffer"},
                 assumptions=STORE_ASSUME),
     "C17": dict(crate="store", title="A closed store rejects all use (REDUCED: closed-handle clause only)",
                 harnesses=[H("c17_closed", timeout=1500, rules=STORE_RULES)],
@@ -186,8 +186,12 @@ PROPS.update({
                            H("c04_put_k01", tier="thorough", timeout=1500, rules=STORE_RULES),
                            H("c04_del_k00", timeout=1500, rules=STORE_RULES, covers=["the probe ran inside the operation"]),
                            H("c04_del_k01", tier="thorough", timeout=1500, rules=STORE_RULES)]
+                + [H("c04_rget_merge_k00", timeout=1500, rules=STORE_RULES, covers=["the writer-side operation ran inside the get"]),
+                   H("c04_rget_putb_k00", timeout=1500, rules=STORE_RULES, covers=["the writer-side operation ran inside the get", "an interleaving the shard lock allows"]),
+                   H("c04_rget_merge_k01", tier="thorough", timeout=1500, rules=STORE_RULES), H("c04_rget_putb_k01", tier="thorough", timeout=1500, rules=STORE_RULES),
+                   H("c04_rget_dela_k00", tier="thorough", timeout=1500, rules=STORE_RULES), H("c04_rget_puta_k00", tier="thorough", timeout=1500, rules=STORE_RULES)]
                 + [H("c04_merge_k%02d" % k, tier=("quick" if k in (6, 8, 10) else "thorough"), timeout=1800, rules=STORE_RULES) for k in (2, 4, 6, 7, 8, 9, 10, 11, 12, 13, 14, 15, 16)],
-                bounds={"scope": "(i) stale map: a reader's mapping taken at a SYMBOLIC length strictly inside a record (between two write calls of one append); once the record is complete and indexed the real LogDir::read must return it. (ii) probe: two values on disk, the reader has read them (old maps); ONE writer-side operation (put / delete / merge of everything) runs and, before file-system call number k of that operation (one harness instance per k), a real Reader::get of both keys must return the value before or after the operation, never an error or a panic. Symbolic: value bytes, the partial length",
+                bounds={"scope": "(i) stale map: a reader's mapping taken at a SYMBOLIC length strictly inside a record (between two write calls of one append); once the record is complete and indexed the real LogDir::read must return it. (ii) probe: two values on disk, the reader has read them (old maps); ONE writer-side operation (put / delete / merge of everything) runs and, before file-system call number k of that operation (one harness instance per k), a real Reader::get of both keys must return the value before or after the operation, never an error or a panic. Symbolic: value bytes, the partial length. (iii) the dual: ONE reader-side get of a key whose file the reader has not opened yet is preempted before its open / its mmap, and a complete writer-side operation (merge of everything, put of the other key, put / delete of the same key) runs there; interleavings in which the writer would have to modify the index entry the get holds its read guard on are infeasible in the real DashMap (shard lock) and are discarded, every remaining one must return the value before or after the operation",
                         "outside": "real thread interleavings inside DashMap/parking_lot/crossbeam, preemption between two index operations without a file-system call in between, two racing readers, more than one in-flight writer-side operation, memory ordering, termination of the spin loop, the reader pool under panics"},
                 assumptions=STORE_ASSUME + ["sequentialisation: preemption matters only at file-system calls; library internals are atomic"]),
 })
